@@ -304,6 +304,8 @@ class Registration(Endpoint):
         for uri in registration_request["redirect_uris"]:
             _custom = False
             p = urlparse(uri)
+            if p.fragment:
+                raise InvalidRedirectURIError("redirect_uri contains fragment")
             if client_type == APPLICATION_TYPE_NATIVE:
                 if p.scheme not in ["http", "https"]:  # Custom scheme
                     _custom = True
